@@ -290,7 +290,22 @@ fn sweep_one(cols: usize, rows: usize, prefix: &str, cp: u32, via_feed: bool) ->
         }
         let _ = vt.feed_str("1;2H\x1b[1;1Hz\n");
         let _ = vt.resize(rows, cols);
-        vt.dump().len() + vt.text().len()
+        let mut n = vt.dump().len() + vt.text().len();
+        // the character as the LAST thing on a row, a row that wraps and one that does not, read
+        // by every text reader (text(), TextUnwrapper over lines(), TextCollector's stream and flush)
+        let mut tc = TextCollector::new(build_vt(3, 2, Some(0)));
+        let body = format!("ab{c}cd{c}\r\n{c}\r\nx{c}{c}\r\n\r\n\r\n", c = ch);
+        n += tc.feed_str(&body).count();
+        n += tc.resize(2, 2).count();
+        n += tc.flush().len();
+        let mut v2 = build_vt(3, 2, None);
+        let _ = v2.feed_str(&body);
+        let mut u = avt::util::TextUnwrapper::new();
+        for l in v2.lines() {
+            n += u.push(l).map(|s| s.len()).unwrap_or(0);
+        }
+        n += u.flush().map(|s| s.len()).unwrap_or(0);
+        n + v2.text().len() + v2.dump().len()
     })
 }
 
@@ -572,6 +587,59 @@ fn runs_part<'a>(tier: Tier, sys: &'a Sys) -> Part<'a, Sys> {
     }
 }
 
+/// Rows of 2^k - 1, 2^k, 2^k + 1 cells (k up to 17) filled in every uniform way - one
+/// character in one pen (DECALN, a repeated character, coloured blanks), alternating pens,
+/// a long run then a change - dumped, and the dump fed to a fresh terminal: every call returns. (Run-length encodings of the dump have their limits here.)
+fn wide_row_dumps(ctx: &Ctx, rep: &mut Report) {
+    let mut widths: Vec<usize> = vec![];
+    for k in [6u32, 7, 8, 10, 12, 15, 16, 17] {
+        let b = 1usize << k;
+        widths.extend([b - 1, b, b + 1]);
+    }
+    if ctx.tier == Tier::Thorough {
+        widths.extend([65599, 131099, 196608, 262145]);
+    }
+    let fills: [(&str, &(dyn Fn(usize) -> String + Sync)); 6] = [
+        ("DECALN", &|_w| "\x1b#8".to_string()),
+        ("a repeated character", &|w| format!("x\x1b[{}b\x1b[{}b\x1b[{}b", 65535.min(w), 65535.min(w), w)),
+        ("coloured blanks", &|_w| "\x1b[44m\x1b[2K".to_string()),
+        ("text", &|w| "abcdefghijklmnopqrstuvwxyz".chars().cycle().take(w).collect()),
+        ("a run, then another pen", &|w| format!("{}\x1b[1m{}", "r".repeat(w / 2), "s".repeat(w - w / 2))),
+        ("a blank run, then text", &|w| format!("\x1b[{}Gend", w.saturating_sub(3).max(1))),
+    ];
+    let cases: Vec<(usize, usize)> = widths.iter().flat_map(|&w| (0..fills.len()).map(move |f| (w, f))).collect();
+    let bad: Vec<String> = cases
+        .par_iter()
+        .filter_map(|&(w, f)| {
+            let r = guarded(|| {
+                let mut vt = build_vt(w, 2, Some(0));
+                let _ = vt.feed_str(&(fills[f].1)(w));
+                // (that the restored terminal equals the original is C11's business; here every
+                // call has to return)
+                let d = vt.dump();
+                let mut r = build_vt(w, 2, Some(0));
+                let _ = r.feed_str(&d);
+                let _ = (vt.text(), vt.lines().len(), vt.cursor(), r.dump().len(), r.text());
+                None::<String>
+            });
+            match r {
+                Ok(None) => None,
+                Ok(Some(d)) => Some(format!("{}x2 filled with {}: {}", w, fills[f].0, d)),
+                Err(p) => Some(format!("{}x2 filled with {}: panic: {}", w, fills[f].0, p)),
+            }
+        })
+        .collect();
+    let n = cases.len() as u64;
+    rep.evaluations += n;
+    rep.transitions += n * 2;
+    rep.parts.push(json!({"part":"wide-row-dumps","widths":widths.len(),"max_width":widths.iter().max(),"fills":fills.len(),"cases":n,"violating":bad.len()}));
+    println!("part wide-row-dumps: {} (width, fill) cases up to {} columns, {} violating", n, widths.iter().max().unwrap(), bad.len());
+    if let Some(d) = bad.first() {
+        emit_violation(ctx, rep, "C01", json!({"part":"wide-row-dumps","oracle":"panic","observed":d}));
+        rep.violations += bad.len() as u64 - 1;
+    }
+}
+
 fn make_sys(tier: Tier) -> Sys {
     let mut extreme = a_extreme();
     // sizes far from the tiny ones (the work is still what the call requests)
@@ -598,6 +666,7 @@ pub fn run(ctx: &Ctx) -> Report {
     run_part(ctx, &mut rep, &runs_part(ctx.tier, &plain));
     sweep(ctx, &mut rep);
     long_call_history(ctx, &mut rep);
+    wide_row_dumps(ctx, &mut rep);
     stack_cases(ctx, &mut rep);
     rep.extra.insert("extreme_alphabet_size".into(), json!(sys.extreme.len()));
     rep.rule = "BFS over op histories (all functions, truncated sequences, resizes incl. 17x2 and 2x9, every Changes treatment) in an overflow-checks + debug-assertions build; every state also gets all read accessors, the same history through TextCollector, and (up to the extreme-layer depth) every extreme-parameter input followed by 9 ordinary ops; plus every listed Unicode scalar fed from every parser state. Oracle: no panic, CPU-time watchdog, per-call allocation envelope".into();
@@ -642,6 +711,12 @@ pub fn replay(ctx: &Ctx, v: &Value) -> bool {
         let st = std::process::Command::new(&exe).arg("run").arg(v["case"].as_str().unwrap_or("")).status();
         println!("{:?}", st);
         return !st.map(|s| s.success()).unwrap_or(false);
+    }
+    if v["part"] == "wide-row-dumps" {
+        let mut rep = Report::new();
+        let c2 = Ctx { id: ctx.id.clone(), tier, seed: 0, start: ctx.start, known: ctx.known.clone(), replay_dir: ctx.replay_dir.clone() };
+        wide_row_dumps(&c2, &mut rep);
+        return rep.violations > 0;
     }
     if v["part"] == "long-call-history" {
         let mut rep = Report::new();
